@@ -77,6 +77,29 @@ FAMILIES = {
 PREFIX_DOCS = [b"# P\n\n~~~text\na\n~~~\n\n***\n\n    indented\n", b"# P\n\n    indented first\n\n```text\nb\n```\n\n---\n\n- - -\n"]
 
 
+# rules whose documented condition does not mention the container a construct sits in: the same document inside a block quote
+# must get the same lines reported (metamorphic twin; shrinks the "undecided inside containers" regions of the verdict operators)
+TWIN_RULES = ("MD001", "MD003", "MD004", "MD018", "MD019", "MD022", "MD024", "MD025", "MD026", "MD031", "MD032", "MD035", "MD040", "MD042", "MD045",
+              "MD046", "MD048")
+
+
+def _twin(name, text, tree):
+    """reports of the twin rules on the document and on the document quoted line by line (same structure one container deeper)"""
+    if not text.endswith("\n") or "\t" in text or tree is None:
+        return None
+    q = "".join(("> " + l if l else ">") + "\n" for l in text[:-1].split("\n"))
+    aq = psweep.analyse(q, want=("html",))
+    if aq["exc"] or aq.get("tree") != (("bq", tree),):
+        return None                               # quoting changed the structure (lazy lines, tabs ...): not a twin
+    out = {}
+    for doc, key in ((text, "plain"), (q, "quoted")):
+        o = runs.execute([("doc.md", doc.encode("utf-8"))], ["scan", "doc.md"], keep_contents=False)
+        if o["exc"] or o["code"] not in (0, 1) or "Error" in o["err"].replace("INLINE", ""):
+            return None
+        out[key] = sorted({(f[3], f[1]) for f in obs.parse_failures(o["out"]) if f[3] in TWIN_RULES})
+    return out
+
+
 def _doc(job):
     name, text, runs_ = job
     a = psweep.analyse(text, want=("html",))
@@ -112,7 +135,8 @@ def _doc(job):
             # a rule may name any line of a (setext) heading: compare by the heading's first line
             lines = {next((b["ln"] for b in B if b["k"] == "h" and b["ln"] <= x <= b["endln"]), x) for x in lines}
         out.append((rule, cname, sorted(lines)))
-    return {"L": L, "B": B, "I": I, "obs": out}
+    twin = _twin(name, text, a.get("tree")) if name.startswith(("family/", "extra/", "md")) else None
+    return {"L": L, "B": B, "I": I, "obs": out, "twin": twin}
 
 
 def run(pid, tier):
@@ -152,6 +176,16 @@ def run(pid, tier):
                 continue
             traces.append([{"rule": rule, "cfg": cfg or {"none": 0}, "L": o["L"], "B": o["B"], "I": o["I"] if rule in ("MD042", "MD045") else [], "observed": lines}])
             meta.append((name, text, rule, cname))
+    twins = 0
+    for (name, text, rr), o in zip(jobs, res):
+        tw = o.get("twin") if isinstance(o, dict) else None
+        if not tw:
+            continue
+        twins += 1
+        if tw["plain"] != tw["quoted"]:
+            rules = sorted({r for r, _l in set(tw["plain"]) ^ set(tw["quoted"])})
+            ctx.violation("twin-disagrees:%s :: %s" % ("+".join(rules), name), {"document": text[:1200], "plain": tw["plain"], "quoted": tw["quoted"]})
+    ctx.ev.parts["quote_twins_compared"] = twins
     verdicts = []
     for ci in range(0, len(traces), 6000):
         tr_, v = tracev.validate("trace/Trace_Rules", "Trace_Rules.cfg", traces[ci:ci + 6000], "c06_%d" % ci)
